@@ -87,9 +87,17 @@ func (c *Ctx) heapInitE(name, epoch string) *Term {
 		epoch = "0"
 	}
 	sym := qsym(name + "@" + epoch)
+	if strings.HasPrefix(name, "HS!") {
+		c.hitemSort()
+	}
 	if !c.declared["heap:"+name+"@"+epoch] {
 		c.declared["heap:"+name+"@"+epoch] = true
 		c.decls = append(c.decls, fmt.Sprintf("(declare-const %s %s)", sym, s))
+		if (name == "MW!is" || name == "TEE!is") && epoch == "0" {
+			// A-IO-WRITERS: at function entry no object is a model-level MultiWriter / TeeReader - a writer or reader
+			// received from the caller is an opaque sink / source with its own ghost sequence
+			c.decls = append(c.decls, fmt.Sprintf("(assert (forall ((r Int)) (! (not (select %s r)) :pattern ((select %s r)))))", sym, sym))
+		}
 	}
 	return Sym(sym, s)
 }
